@@ -88,3 +88,9 @@ Theorem no_stale_rows_lemma :
   forallb (modobj_review_used g_modobjs) modobj_reviewed = true.
 Proof. vm_compute. repeat split; reflexivity. Qed.
 
+Theorem fn_digests_reviewed_lemma : forallb digest_reviewed g_fn_digests = true.
+Proof. vm_compute. reflexivity. Qed.
+
+Theorem builtin_templates_stateless_lemma : tpl_toplevel_immutable g_tpl_toplevel = true.
+Proof. vm_compute. reflexivity. Qed.
+
